@@ -145,7 +145,6 @@ func VerifH_StreamParkedWrite() {
 	vrt.Cover("parked-end")
 }
 
-
 // VerifH_PacketsWhileTerminating: a terminating call (Close / SendError / SendCancel) is
 // parked in the transport writing its final packet: the stream is terminated but not yet
 // finished. Packets from the peer arriving in that window (any kind class) must be ignored:
